@@ -339,6 +339,10 @@ class Fold(ast.NodeTransformer):
             return True
         return isinstance(f, ast.Attribute) and f.attr == 'partial' and isinstance(f.value, ast.Name) and f.value.id in mods
 
+    @staticmethod
+    def _lambda_call(e):
+        return isinstance(e, ast.Call) and isinstance(e.func, ast.Lambda) and not e.args and not e.keywords and _pure(e.func.body)
+
     def hit(self, new, old):
         self.changed = True
         ast.copy_location(new, old)
@@ -448,6 +452,20 @@ class Fold(ast.NodeTransformer):
                 if f.id == 'list':
                     return self.hit(self.visit(ast.ListComp(elt=elt, generators=gen)), node)
                 return self.hit(ast.Call(func=f, args=[self.visit(ast.GeneratorExp(elt=elt, generators=gen))], keywords=[]), node)
+            if f.id in ('any', 'all') and len(node.args) == 1 and not node.keywords and isinstance(node.args[0], (ast.GeneratorExp, ast.ListComp, ast.Tuple, ast.List)):
+                a0 = node.args[0]
+                from .normalize import UnrollComp
+                if isinstance(a0, (ast.Tuple, ast.List)):
+                    ex = None if any(isinstance(x, ast.Starred) for x in a0.elts) or not all(_pure(x) for x in a0.elts) else list(a0.elts)
+                else:
+                    ex = UnrollComp()._expand(a0)
+                    if ex is not None and isinstance(a0, ast.ListComp) and not all(_pure(x) or self._lambda_call(x) for x in ex):
+                        ex = None           # a list is built completely before any() looks at it
+                if ex:
+                    terms = [x if self._boolish(x) else ast.Call(func=ast.Name(id='bool', ctx=ast.Load()), args=[x], keywords=[]) for x in ex]
+                    if len(terms) == 1:
+                        return self.hit(terms[0], node)
+                    return self.hit(self.visit(ast.BoolOp(op=ast.Or() if f.id == 'any' else ast.And(), values=terms)), node)
             if f.id == 'list' and len(node.args) == 1 and not node.keywords:
                 a0 = node.args[0]
                 if isinstance(a0, ast.GeneratorExp):
@@ -457,7 +475,7 @@ class Fold(ast.NodeTransformer):
             if f.id == 'tuple' and len(node.args) == 1 and not node.keywords and isinstance(node.args[0], ast.Call) and isinstance(node.args[0].func, ast.Name) \
                     and node.args[0].func.id in ('list', 'tuple') and len(node.args[0].args) == 1 and not node.args[0].keywords and not isinstance(node.args[0].args[0], ast.Starred):
                 return self.hit(ast.Call(func=f, args=[node.args[0].args[0]], keywords=[]), node)
-            if f.id == 'bool' and len(node.args) == 1 and not node.keywords and isinstance(node.args[0], (ast.BoolOp, ast.Compare)) and self._boolish(node.args[0]):
+            if f.id == 'bool' and len(node.args) == 1 and not node.keywords and self._boolish(node.args[0]) and not (isinstance(node.args[0], ast.BoolOp) and not all(_boolish(v) for v in node.args[0].values)):
                 return self.hit(node.args[0], node)
         if isinstance(f, ast.Attribute) and f.attr == 'get' and isinstance(f.value, ast.Dict) and simple and 1 <= len(node.args) <= 2 and not node.keywords:
             k = _const_key(node.args[0])
@@ -475,6 +493,30 @@ class Fold(ast.NodeTransformer):
             else:
                 elts = list(d.keys if f.attr == 'keys' else d.values)
             return self.hit(ast.Tuple(elts=elts, ctx=ast.Load()), node)
+        # ' '.join((a, 'text', b))  ->  f'{a} text {b}'       (a tuple / list display whose items are string literals, f-strings or str(...) calls)
+        if isinstance(f, ast.Attribute) and f.attr == 'join' and isinstance(f.value, ast.Constant) and isinstance(f.value.value, str) and simple and len(node.args) == 1 \
+                and not node.keywords and isinstance(node.args[0], (ast.Tuple, ast.List)) and node.args[0].elts \
+                and all(isinstance(x, ast.JoinedStr) or (isinstance(x, ast.Constant) and isinstance(x.value, str))
+                        or (isinstance(x, ast.Call) and isinstance(x.func, ast.Name) and x.func.id == 'str' and len(x.args) == 1 and not x.keywords) for x in node.args[0].elts):
+            vals = []
+            for i_, x in enumerate(node.args[0].elts):
+                if i_ and f.value.value:
+                    vals.append(ast.Constant(value=f.value.value))
+                if isinstance(x, ast.JoinedStr):
+                    vals.extend(x.values)
+                elif isinstance(x, ast.Constant):
+                    vals.append(x)
+                else:
+                    vals.append(ast.FormattedValue(value=x.args[0], conversion=-1, format_spec=None))
+            merged = []
+            for v in vals:
+                if isinstance(v, ast.Constant) and merged and isinstance(merged[-1], ast.Constant):
+                    merged[-1] = ast.Constant(value=merged[-1].value + v.value)
+                else:
+                    merged.append(v)
+            if len(merged) == 1 and isinstance(merged[0], ast.Constant):
+                return self.hit(merged[0], node)
+            return self.hit(ast.JoinedStr(values=merged), node)
         # 'a {} b {}'.format(x, y)  ->  f'a {x} b {y}'      (plain fields only)
         if isinstance(f, ast.Attribute) and f.attr == 'format' and isinstance(f.value, ast.Constant) and isinstance(f.value.value, str) and simple:
             import string
@@ -521,7 +563,7 @@ class Fold(ast.NodeTransformer):
             return True
         if isinstance(e, ast.BoolOp):
             return all(self._boolish(v) or (isinstance(v, ast.UnaryOp) and isinstance(v.op, ast.Not)) for v in e.values)
-        return False
+        return _boolish(e)
 
     def _beta(self, lam, call):
         a = lam.args
@@ -617,6 +659,19 @@ class Fold(ast.NodeTransformer):
             return self.hit(ast.Tuple(elts=[ast.Starred(value=node.left, ctx=ast.Load())] + node.right.elts, ctx=ast.Load()), node)
         if isinstance(node.op, ast.Add) and isinstance(node.left, ast.Constant) and isinstance(node.right, ast.Constant) and isinstance(node.left.value, str) and isinstance(node.right.value, str):
             return self.hit(ast.Constant(value=node.left.value + node.right.value), node)
+        # {k: a} | {j: b}  ->  {k: a, j: b}     (constant keys; a key of the right operand replaces the same key of the left one but keeps its position; values pure)
+        if isinstance(node.op, ast.BitOr) and isinstance(node.left, ast.Dict) and isinstance(node.right, ast.Dict):
+            lk = [_const_key(k) if k is not None else None for k in node.left.keys]
+            rk = [_const_key(k) if k is not None else None for k in node.right.keys]
+            if all(k is not None for k in lk + rk) and len(set(lk)) == len(lk) and len(set(rk)) == len(rk) and (not (set(lk) & set(rk)) or all(_pure(v) for v in node.left.values + node.right.values)):
+                keys, vals = list(node.left.keys), list(node.left.values)
+                for k, kk, v in zip(rk, node.right.keys, node.right.values):
+                    if k in lk:
+                        vals[lk.index(k)] = v
+                    else:
+                        keys.append(kk)
+                        vals.append(v)
+                return self.hit(ast.Dict(keys=keys, values=vals), node)
         # 'a %s b %s' % (x, y)  ->  f'a {x} b {y}'        (%s fields only; a tuple display on the right, or a single non-tuple expression for one field)
         if isinstance(node.op, ast.Mod) and isinstance(node.left, ast.Constant) and isinstance(node.left.value, str):
             import re as _re
@@ -671,6 +726,9 @@ class Fold(ast.NodeTransformer):
             return self.hit(ast.Constant(value=not node.operand.value), node)
         if isinstance(node.op, ast.Not) and isinstance(node.operand, ast.UnaryOp) and isinstance(node.operand.op, ast.Not) and self._boolish(node.operand.operand):
             return self.hit(node.operand.operand, node)         # not not <comparison>
+        # not (a in b) -> a not in b ; not (a is b) -> a is not b  (and the reverse): one spelling for a negated membership / identity test
+        if isinstance(node.op, ast.Not) and isinstance(node.operand, ast.Compare) and len(node.operand.ops) == 1 and isinstance(node.operand.ops[0], (ast.In, ast.NotIn, ast.Is, ast.IsNot)):
+            return self.hit(_neg(node.operand), node)
         return node
 
     @staticmethod
@@ -963,6 +1021,9 @@ def _propagate_locals(fn, ctx):
             kind = 'callable'
         elif isinstance(val, (ast.Name, ast.Attribute)) and _pure(val):
             kind = 'ref'
+        elif isinstance(val, ast.JoinedStr) and all(isinstance(v, ast.Constant) or (isinstance(v, ast.FormattedValue) and _pure(v.value) and v.format_spec is None) for v in val.values) \
+                and '__' not in name:
+            kind = 'str'
         if kind is None:
             continue
         loads = info.loads(name)
@@ -1006,7 +1067,7 @@ def _propagate_locals(fn, ctx):
                 _remove_stmt(fn, asg)
                 ast.fix_missing_locations(fn)
                 return True
-        if not info.stable_after(free, asg, uses=loads if kind in ('seq', 'dict', 'callable') else None):
+        if not info.stable_after(free, asg, uses=loads if kind in ('seq', 'dict', 'callable', 'str') else None):
             continue
         at = info.order.get(id(asg))
         if at is None:
@@ -1030,6 +1091,8 @@ def _propagate_locals(fn, ctx):
                     plan.append(ld)
                 elif isinstance(par, ast.keyword) and par.arg is None and all(isinstance(k, ast.Constant) and isinstance(k.value, str) for k in val.keys):
                     plan.append(ld)
+                elif isinstance(par, ast.BinOp) and isinstance(par.op, ast.BitOr) and isinstance(par.right if par.left is ld else par.left, (ast.Dict, ast.Name)):
+                    plan.append(ld)         # {..} | d : a new dict is built, d itself is only read
                 elif isinstance(par, ast.Attribute) and par.value is ld and par.attr in ('get', 'items', 'keys', 'values') and isinstance(info.parents.get(id(par)), ast.Call) \
                         and info.parents.get(id(par)).func is par:
                     plan.append(ld)
@@ -1037,6 +1100,12 @@ def _propagate_locals(fn, ctx):
                     rest += 1
             elif kind == 'callable':
                 if isinstance(par, ast.Call) and par.func is ld:
+                    plan.append(ld)
+                else:
+                    rest += 1
+            elif kind == 'str':
+                # a piece of a message: read once, by a raise / warning statement or by the statement that assembles the message
+                if len(loads) == 1 and not info.loops.get(st, True):
                     plan.append(ld)
                 else:
                     rest += 1
@@ -1080,6 +1149,10 @@ def _propagate_locals(fn, ctx):
         if not plan:
             continue
         if rest and not isinstance(val, (ast.Tuple, ast.Lambda)) and kind != 'callable':
+            continue
+        if kind == 'str' and rest:
+            continue
+        if False:
             continue        # a list / dict with other uses may be mutated through them: the literal cannot stand in for the object
         ids = {id(x) for x in plan}
 
@@ -1616,6 +1689,9 @@ def _neg(e):
         return e.operand
     if isinstance(e, ast.Constant) and isinstance(e.value, bool):
         return ast.Constant(value=not e.value)
+    if isinstance(e, ast.Compare) and len(e.ops) == 1 and isinstance(e.ops[0], (ast.In, ast.NotIn, ast.Is, ast.IsNot)):
+        flip = {ast.In: ast.NotIn, ast.NotIn: ast.In, ast.Is: ast.IsNot, ast.IsNot: ast.Is}[type(e.ops[0])]
+        return ast.Compare(left=e.left, ops=[flip()], comparators=e.comparators)
     return ast.UnaryOp(op=ast.Not(), operand=e)
 
 
@@ -2149,6 +2225,288 @@ def _generated_lists(fn):
     return False
 
 
+def _round_trip_temps(fn):
+    """t = x ; ... t ... ; x = t      ->   ... x ...       (same block; every occurrence of t lies between the two copies, x does not occur there: t is x under another name)"""
+    params = _own_params(fn)
+    for n in ast.walk(fn):
+        for fld in ('body', 'orelse', 'finalbody'):
+            blk = getattr(n, fld, None)
+            if not (isinstance(blk, list) and blk and isinstance(blk[0], ast.stmt)):
+                continue
+            for i, a in enumerate(blk):
+                if not (isinstance(a, ast.Assign) and len(a.targets) == 1 and isinstance(a.targets[0], ast.Name) and isinstance(a.value, ast.Name)):
+                    continue
+                t, x = a.targets[0].id, a.value.id
+                if t == x or t in params or '__' not in t:
+                    continue
+                for j in range(i + 1, len(blk)):
+                    b = blk[j]
+                    if isinstance(b, ast.Assign) and len(b.targets) == 1 and isinstance(b.targets[0], ast.Name) and b.targets[0].id == x and isinstance(b.value, ast.Name) and b.value.id == t:
+                        mid = blk[i + 1:j]
+                        inside = sum(1 for st in mid for y in ast.walk(st) if isinstance(y, ast.Name) and y.id == t)
+                        total = sum(1 for y in ast.walk(fn) if isinstance(y, ast.Name) and y.id == t)
+                        if total != inside + 2:
+                            break
+                        if any((isinstance(y, ast.Name) and y.id == x) or (isinstance(y, ast.arg) and y.arg in (t, x)) or (isinstance(y, (ast.FunctionDef, ast.Lambda, ast.ClassDef)))
+                               for st in mid for y in ast.walk(st)):
+                            break
+                        for st in mid:
+                            for y in ast.walk(st):
+                                if isinstance(y, ast.Name) and y.id == t:
+                                    y.id = x
+                        del blk[j]
+                        del blk[i]
+                        if not blk:
+                            blk.append(ast.Pass())
+                        ast.fix_missing_locations(fn)
+                        return True
+                    if any(isinstance(y, ast.Name) and y.id == x and isinstance(y.ctx, ast.Store) for y in ast.walk(b)):
+                        break
+    return False
+
+
+def _occurrences_outside_comprehension_scopes(fn, x):
+    """occurrences of the name x in fn that are not the private variable of a comprehension"""
+    hidden = set()
+    for c in ast.walk(fn):
+        if isinstance(c, (ast.ListComp, ast.SetComp, ast.GeneratorExp, ast.DictComp)):
+            tg = {y.id for g in c.generators for y in ast.walk(g.target) if isinstance(y, ast.Name)}
+            if x in tg:
+                first_iter = {id(y) for y in ast.walk(c.generators[0].iter)}
+                for y in ast.walk(c):
+                    if isinstance(y, ast.Name) and y.id == x and id(y) not in first_iter:
+                        hidden.add(id(y))
+    return sum(1 for y in ast.walk(fn) if isinstance(y, ast.Name) and y.id == x and id(y) not in hidden)
+
+def _membership_loops(fn):
+    """search loops that only test membership, and guard-continue at the top of a loop body:
+         for x in S: if x == E: break                                     (x not used elsewhere)
+         else: ELSE                                          ->  if E not in S: ELSE
+         F = False ; for x in S: if x == E: F = True ; break  ->  F = E in S
+         for ..: if C: continue ; REST                        ->  for ..: if not C: REST           (REST without a further top-level continue is not required)"""
+    info = _FnInfo(fn)
+    for n in ast.walk(fn):
+        for fld in ('body', 'orelse', 'finalbody'):
+            blk = getattr(n, fld, None)
+            if not (isinstance(blk, list) and blk and isinstance(blk[0], ast.stmt)):
+                continue
+            for i, st in enumerate(blk):
+                if isinstance(st, (ast.For, ast.While)) and len(st.body) >= 2 and isinstance(st.body[0], ast.If) and not st.body[0].orelse \
+                        and len(st.body[0].body) == 1 and isinstance(st.body[0].body[0], ast.Continue) and _test_pure(st.body[0].test):
+                    g = st.body[0]
+                    st.body = [ast.copy_location(ast.If(test=_neg(g.test), body=st.body[1:], orelse=[]), g)]
+                    ast.fix_missing_locations(fn)
+                    return True
+                if not (isinstance(st, ast.For) and isinstance(st.target, ast.Name) and len(st.body) == 1 and isinstance(st.body[0], ast.If) and not st.body[0].orelse):
+                    continue
+                x = st.target.id
+                test, inner = st.body[0].test, st.body[0].body
+                if not (isinstance(test, ast.Compare) and len(test.ops) == 1 and isinstance(test.ops[0], ast.Eq)):
+                    continue
+                l, r = test.left, test.comparators[0]
+                if isinstance(l, ast.Name) and l.id == x:
+                    e = r
+                elif isinstance(r, ast.Name) and r.id == x:
+                    e = l
+                else:
+                    continue
+                if not _pure(e) or x in _free_names(e) or not _pure(st.iter):
+                    continue
+                occ = _occurrences_outside_comprehension_scopes(fn, x)
+                if occ != 2 or x in info.params:
+                    continue
+                if len(inner) == 1 and isinstance(inner[0], ast.Break) and st.orelse:
+                    new = ast.If(test=ast.Compare(left=e, ops=[ast.NotIn()], comparators=[st.iter]), body=st.orelse, orelse=[])
+                    blk[i] = ast.copy_location(new, st)
+                    ast.fix_missing_locations(fn)
+                    return True
+                if len(inner) == 2 and isinstance(inner[1], ast.Break) and not st.orelse and isinstance(inner[0], ast.Assign) and len(inner[0].targets) == 1 \
+                        and isinstance(inner[0].targets[0], ast.Name) and isinstance(inner[0].value, ast.Constant) and inner[0].value.value is True and i > 0:
+                    f = inner[0].targets[0].id
+                    prev = blk[i - 1]
+                    if isinstance(prev, ast.Assign) and len(prev.targets) == 1 and isinstance(prev.targets[0], ast.Name) and prev.targets[0].id == f \
+                            and isinstance(prev.value, ast.Constant) and prev.value.value is False and f not in _free_names(e) and f not in _free_names(st.iter):
+                        prev.value = ast.Compare(left=e, ops=[ast.In()], comparators=[st.iter])
+                        del blk[i]
+                        ast.fix_missing_locations(fn)
+                        return True
+    return False
+
+
+FRESH_CALLS = {'slice', 'range', 'len', 'tuple', 'list', 'int', 'min', 'max', 'zip', 'enumerate', 'dict', 'abs', 'float', 'bool', 'str', 'sum', 'sorted', 'reversed'}
+
+
+def _fresh_value(e):
+    """an expression that builds a new list from effect-free parts (safe to evaluate again instead of copying its first value)"""
+    for n in ast.walk(e):
+        if isinstance(n, ast.Call) and not (isinstance(n.func, ast.Name) and n.func.id in FRESH_CALLS):
+            return False
+        if isinstance(n, (ast.Yield, ast.YieldFrom, ast.Await, ast.NamedExpr, ast.Lambda)):
+            return False
+    return isinstance(e, (ast.List, ast.ListComp)) or (isinstance(e, ast.BinOp) and isinstance(e.op, (ast.Mult, ast.Add)) and (isinstance(e.left, ast.List) or isinstance(e.right, ast.List))) \
+        or (isinstance(e, ast.Call) and isinstance(e.func, ast.Name) and e.func.id == 'list')
+
+
+def _copy_of_template(fn):
+    """T = <fresh list expression> ; ... T.copy() ...      ->  the expression in place of every T.copy()   (T bound once, only ever copied)"""
+    info = _FnInfo(fn)
+    for asg in [n for n in ast.walk(fn) if isinstance(n, ast.Assign)]:
+        if len(asg.targets) != 1 or not isinstance(asg.targets[0], ast.Name) or not _fresh_value(asg.value):
+            continue
+        name = asg.targets[0].id
+        if not info.single(name) or info.order.get(id(asg)) is None or info.loops.get(id(asg), True):
+            continue
+        loads = info.loads(name)
+        if not loads:
+            continue
+        calls = []
+        for ld in loads:
+            par = info.parents.get(id(ld))
+            gp = info.parents.get(id(par)) if par is not None else None
+            ok = isinstance(par, ast.Attribute) and par.value is ld and par.attr == 'copy' and isinstance(gp, ast.Call) and gp.func is par and not gp.args and not gp.keywords
+            ok = ok or (isinstance(par, ast.Call) and isinstance(par.func, ast.Name) and par.func.id == 'list' and par.args == [ld] and not par.keywords)
+            ok = ok or (isinstance(par, ast.Subscript) and par.value is ld and isinstance(par.ctx, ast.Load) and isinstance(par.slice, ast.Slice) and par.slice.lower is None and par.slice.upper is None and par.slice.step is None)
+            if not ok or info.order.get(info.owner.get(id(ld)), -1) <= info.order[id(asg)]:
+                calls = None
+                break
+            calls.append(gp if isinstance(par, ast.Attribute) else par)
+        if not calls:
+            continue
+        free = _free_names(asg.value) - FRESH_CALLS
+        if not info.stable_after(free, asg):
+            # re-binding of a free name after the last copy is harmless; be exact only for the simple case
+            later = [info.order.get(info.owner.get(id(ld)), -1) for ld in loads]
+            rebinds = [info.order.get(info.owner.get(id(x)), 10 ** 9) for x in ast.walk(fn) if isinstance(x, ast.Name) and x.id in free and isinstance(x.ctx, (ast.Store, ast.Del))
+                       and info.order.get(info.owner.get(id(x)), -1) > info.order[id(asg)]]
+            if any(r <= max(later) for r in rebinds) or any(info.loops.get(info.owner.get(id(x)), True) for x in ast.walk(fn) if isinstance(x, ast.Name) and x.id in free and isinstance(x.ctx, ast.Store)
+                                                               and info.order.get(info.owner.get(id(x)), -1) > info.order[id(asg)]):
+                continue
+        ids = {id(c) for c in calls}
+        val = asg.value
+
+        class Rp(ast.NodeTransformer):
+            def visit_Call(self, n):
+                if id(n) in ids:
+                    return ast.copy_location(copy.deepcopy(val), n)
+                return self.generic_visit(n)
+
+            def visit_Subscript(self, n):
+                if id(n) in ids:
+                    return ast.copy_location(copy.deepcopy(val), n)
+                return self.generic_visit(n)
+        Rp().visit(fn)
+        _remove_stmt(fn, asg)
+        ast.fix_missing_locations(fn)
+        return True
+    return False
+
+
+def _names(stmts, ctx):
+    return {x.id for st in stmts for x in ast.walk(st) if isinstance(x, ast.Name) and isinstance(x.ctx, ctx)}
+
+
+def _store_bases(stmts):
+    """names written by the statements: plain stores, bases of subscript / attribute stores, receivers of method calls, targets of augmented assignments"""
+    out = set()
+    for st in stmts:
+        for x in ast.walk(st):
+            if isinstance(x, ast.Name) and isinstance(x.ctx, (ast.Store, ast.Del)):
+                out.add(x.id)
+            if isinstance(x, (ast.Subscript, ast.Attribute)) and isinstance(x.ctx, (ast.Store, ast.Del)):
+                b = x
+                while isinstance(b, (ast.Subscript, ast.Attribute)):
+                    b = b.value
+                if isinstance(b, ast.Name):
+                    out.add(b.id)
+            if isinstance(x, ast.Call) and isinstance(x.func, ast.Attribute):
+                b = x.func.value
+                while isinstance(b, (ast.Subscript, ast.Attribute)):
+                    b = b.value
+                if isinstance(b, ast.Name) and b.id not in ('np', 'numpy', 'math'):
+                    out.add(b.id)
+            if isinstance(x, ast.Call) and any(k.arg == 'out' for k in x.keywords):
+                for k in x.keywords:
+                    if k.arg == 'out':
+                        out |= {y.id for y in ast.walk(k.value) if isinstance(y, ast.Name)}
+            if isinstance(x, ast.Call) and isinstance(x.func, ast.Attribute) and x.func.attr == 'at' and x.args:
+                out |= {y.id for y in ast.walk(x.args[0]) if isinstance(y, ast.Name)}
+    return out
+
+
+def _fuse_producer_consumer(fn):
+    """L = [] ; for T1 in R1: BODY1 ; L.append(E)        for T2 in L: BODY2          ->   for T1 in R1: BODY1 ; T2 = E ; BODY2
+    L has no other use; BODY1 only computes locals (effect-free calls, stores into lists it created itself); what BODY2 writes is not read by BODY1 / R1 / E and
+    what BODY1 binds is not read by BODY2 (other than through T2)."""
+    info = _FnInfo(fn)
+    for n in ast.walk(fn):
+        for fld in ('body', 'orelse', 'finalbody'):
+            blk = getattr(n, fld, None)
+            if not (isinstance(blk, list) and len(blk) >= 3 and isinstance(blk[0], ast.stmt)):
+                continue
+            for i in range(len(blk) - 2):
+                a, p, c = blk[i], blk[i + 1], blk[i + 2]
+                if not (isinstance(a, ast.Assign) and len(a.targets) == 1 and isinstance(a.targets[0], ast.Name) and isinstance(a.value, ast.List) and not a.value.elts):
+                    continue
+                L = a.targets[0].id
+                if not (isinstance(p, ast.For) and isinstance(c, ast.For) and not p.orelse and not c.orelse and isinstance(c.iter, ast.Name) and c.iter.id == L and p.body):
+                    continue
+                last = p.body[-1]
+                if not (isinstance(last, ast.Expr) and isinstance(last.value, ast.Call) and isinstance(last.value.func, ast.Attribute) and last.value.func.attr == 'append'
+                        and isinstance(last.value.func.value, ast.Name) and last.value.func.value.id == L and len(last.value.args) == 1 and not last.value.keywords):
+                    continue
+                if sum(1 for x in ast.walk(fn) if isinstance(x, ast.Name) and x.id == L) != 3:
+                    continue
+                body1, E, body2 = p.body[:-1], last.value.args[0], c.body
+                if any(isinstance(x, (ast.Break, ast.Continue, ast.Return, ast.Yield, ast.YieldFrom, ast.FunctionDef, ast.Lambda, ast.While, ast.Try, ast.With)) for st in body1 + body2 for x in ast.walk(st)):
+                    continue
+                # BODY1: effect-free calls only, stores only into names it binds itself
+                own = _names(body1, ast.Store) | _names([ast.Expr(value=p.target)], ast.Store)
+                ok = True
+                for st in body1 + [ast.Expr(value=E)]:
+                    for x in ast.walk(st):
+                        if isinstance(x, ast.Call):
+                            f = x.func
+                            if isinstance(f, ast.Name) and f.id in FRESH_CALLS:
+                                continue
+                            if isinstance(f, ast.Attribute) and f.attr in ('copy', 'index', 'count') and isinstance(f.value, ast.Name):
+                                continue
+                            ok = False
+                if not ok or not (_store_bases(body1) <= own):
+                    continue
+                t2 = _names([ast.Expr(value=c.target)], ast.Store)
+                w2 = _store_bases(body2) | t2
+                r1 = _names(body1, ast.Load) | _names([ast.Expr(value=p.iter), ast.Expr(value=E)], ast.Load)
+                # reads of BODY1 that see a value from outside the iteration: everything it reads minus what it has bound before (straight-line approximation)
+                bound, exposed = set(_names([ast.Expr(value=p.target)], ast.Store)), set()
+                for st in body1:
+                    if isinstance(st, ast.Assign):
+                        exposed |= {x.id for x in ast.walk(st.value) if isinstance(x, ast.Name)} - bound
+                        for t in st.targets:
+                            if isinstance(t, ast.Name):
+                                bound.add(t.id)
+                            else:
+                                exposed |= {x.id for x in ast.walk(t) if isinstance(x, ast.Name) and isinstance(x.ctx, ast.Load)} - bound
+                    else:
+                        exposed |= {x.id for x in ast.walk(st) if isinstance(x, ast.Name) and isinstance(x.ctx, ast.Load)} - bound
+                exposed |= {x.id for x in ast.walk(E) if isinstance(x, ast.Name)} - bound
+                exposed |= _names([ast.Expr(value=p.iter)], ast.Load)
+                if w2 & exposed:
+                    continue
+                r2 = _names(body2, ast.Load) - t2
+                if r2 & own:
+                    continue
+                # names bound by BODY1 must not be read after the loops expecting their last value? they keep it: BODY2 does not bind them (w2 & own checked through exposed only) - require disjointness
+                if (w2 - t2) & own:
+                    continue
+                bind = ast.copy_location(ast.Assign(targets=[c.target], value=E), last)
+                p.body = body1 + [bind] + body2
+                del blk[i + 2]
+                del blk[i]
+                ast.fix_missing_locations(fn)
+                return True
+    return False
+
+
 def _forward_temps(fn):
     """t = E ; TARGET = t      ->  TARGET = E        (adjacent statements; t bound once and read once - by that copy; TARGET may be a global, an
     attribute or a subscript whose own sub-expressions are effect free)"""
@@ -2275,6 +2633,7 @@ def simplify_function(fn, ctx, inliner, cls):
         changed |= _flatten_product_loops(fn)
         changed |= _modern_syntax(fn)
         changed |= _induction_vars(fn)
+        changed |= _membership_loops(fn)
         if _propagate_locals(fn, ctx):
             changed = True
         elif _record_dicts(fn):
@@ -2288,6 +2647,12 @@ def simplify_function(fn, ctx, inliner, cls):
         elif _forward_temps(fn):
             changed = True
         elif _generated_lists(fn):
+            changed = True
+        elif _round_trip_temps(fn):
+            changed = True
+        elif _copy_of_template(fn):
+            changed = True
+        elif _fuse_producer_consumer(fn):
             changed = True
         elif _split_impure_packs(fn):
             changed = True
